@@ -148,27 +148,35 @@ Proof.
   apply negb_true_iff in H. apply (proj1 (vempty_false v)). assumption.
 Qed.
 
+Definition matint_is (c : cell) (key : Z) : bool :=
+  match c_matint c with Some i => (i =? key)%Z | None => false end.
+
+Lemma matint_is_ok c key : matint_is c key = true -> c_matint c = Some key.
+Proof.
+  unfold matint_is. destruct (c_matint c) as [i|]; [|discriminate].
+  intros H. apply Z.eqb_eq in H. subst. reflexivity.
+Qed.
+
 Definition cell_namedb (w : wstate E) (c : cell) : bool :=
   match c_density c with
-  | None => String.eqb (c_mat c) "0"
+  | None => matint_is c 0
   | Some d =>
       existsb (fun km =>
-        String.eqb (c_mat c) (dec_Z (fst km))
-        && existsb (fun ic => c_live (snd ic)
-                              && match c_matint (snd ic) with Some i => (i =? fst km)%Z | None => false end
+        matint_is c (fst km)
+        && existsb (fun ic => c_live (snd ic) && matint_is (snd ic) (fst km)
                               && match c_density (snd ic) with Some d' => String.eqb d' d | None => false end)
                    (w_cells w)) (w_mats w)
   end.
 
 Lemma cell_namedb_sound w c : cell_namedb w c = true -> cell_named w c.
 Proof.
-  unfold cell_namedb, cell_named. destruct (c_density c) as [d|]; [|apply String.eqb_eq].
+  unfold cell_namedb, cell_named. destruct (c_density c) as [d|]; [|apply matint_is_ok].
   rewrite existsb_exists. intros [[key m] [Hm H]]. simpl in H. apply andb_true_iff in H. destruct H as [H1 H2].
-  apply String.eqb_eq in H1. apply existsb_exists in H2. destruct H2 as [[cid c'] [Hc H2]]. simpl in H2.
+  apply matint_is_ok in H1. apply existsb_exists in H2. destruct H2 as [[cid c'] [Hc H2]]. simpl in H2.
   apply andb_true_iff in H2. destruct H2 as [H2 H3]. apply andb_true_iff in H2. destruct H2 as [H2 H4].
+  apply matint_is_ok in H4.
   exists key, m, c', cid. repeat split; try assumption.
-  - destruct (c_matint c') as [i|]; [|discriminate]. apply Z.eqb_eq in H4. subst. reflexivity.
-  - destruct (c_density c') as [d'|]; [|discriminate]. apply String.eqb_eq in H3. subst. reflexivity.
+  destruct (c_density c') as [d'|]; [|discriminate]. apply String.eqb_eq in H3. subst. reflexivity.
 Qed.
 
 Definition wf_stateb (w : wstate E) : bool :=
